@@ -45,6 +45,9 @@ pub struct FileFacts {
     /// the tree does not spell the text it was parsed from: (length of the tree's text, length
     /// of the text). Nothing else is derived from such a tree.
     pub tree_mismatch: Option<(usize, usize)>,
+    /// diagnostics of the plain entry point `SourceFile::parse` (parser + validation, no lexical
+    /// gate) when they differ from those of the lex-checked parse although the lexer found nothing
+    pub plain_parse_differs: Option<(usize, usize)>,
 }
 
 pub fn analyze_text(text: &str) -> Result<FileFacts, String> {
@@ -77,9 +80,21 @@ pub fn analyze_text(text: &str) -> Result<FileFacts, String> {
             nested_includes: vec![],
             node_ranges: vec![],
             tree_mismatch: None,
+            plain_parse_differs: None,
         };
         if !have_parse {
             return facts;
+        }
+        // the lexer found nothing: "then all its diagnostics are syntactic", i.e. what the parser
+        // and the validation pass report, which is what the plain entry point returns
+        let plain: Vec<(usize, usize, String)> = synast::SourceFile::parse(text)
+            .errors()
+            .iter()
+            .map(|e| (e.range().start().into(), e.range().end().into(), e.to_string()))
+            .collect();
+        let checked: Vec<(usize, usize, String)> = facts.syn.iter().map(|d| (d.start, d.end, d.msg.clone())).collect();
+        if plain != checked {
+            facts.plain_parse_differs = Some((plain.len(), checked.len()));
         }
         let root = parsed.syntax_node();
         let tree_len: usize = root.text_range().len().into();
@@ -118,7 +133,13 @@ pub fn analyze_text(text: &str) -> Result<FileFacts, String> {
             let r = n.text_range();
             let (s, e): (usize, usize) = (r.start().into(), r.end().into());
             facts.node_ranges.push((s, e));
-            if n.kind() == SyntaxKind::INCLUDE && !top_include_starts.contains(&s) {
+            // the body of a `cal` block or `defcal` is written in the calibration grammar, not in
+            // OpenQASM (the analyser answers NotImplementedError for the whole statement): what
+            // looks like an include in there is not one
+            let in_calibration = n
+                .ancestors()
+                .any(|a| matches!(a.kind(), SyntaxKind::CAL | SyntaxKind::DEF_CAL));
+            if n.kind() == SyntaxKind::INCLUDE && !top_include_starts.contains(&s) && !in_calibration {
                 facts.nested_includes.push((s, e));
             }
         }
